@@ -438,7 +438,8 @@ pub fn engine_join_hold(rt: &tokio::runtime::Runtime, cases: Vec<Value>, out: &m
             let all = crate::runs::all_frames(&data);
             log_seqs = all.iter().filter(|f| f["stream_id"].as_str() == Some(stream.as_str())).filter_map(|f| f["seq"].as_u64()).collect();
             let want_last = log_seqs.last().copied();
-            for _ in 0..100 {
+            // patience, not a deadline that a busy machine could miss: the verdict only needs the subscriber to have caught up
+            for _ in 0..500 {
                 let got_last = sink.lock().unwrap().iter().filter_map(|f| f["seq"].as_u64()).max();
                 if got_last == want_last {
                     break;
